@@ -35,9 +35,9 @@ GROW, GROW_MOD = "fetchgrow", "Model.FetchGrow"
 # work bounds (implementation side).  n = input bytes + bytes returned by the decompressor
 LINES_BASE, LINES_PER_BYTE = 400, 8           # executed afkak source lines (worst ratio on the unchanged tree: 2.6/byte)
 COPY_BASE, COPY_PER_BYTE = 4096, 12           # bytes copied out of the input by slicing (unchanged tree: about 3/byte)
-SCALE_RATIO = 7.0                             # wall time of a 4x larger input / wall time of the input (linear: 4, quadratic: 16)
+SCALE_RATIO = 10.0                            # wall time of a 4x larger input / wall time of the input (linear: 4, quadratic: 16)
 MEM_BASE, MEM_PER_BYTE = 256 * 1024, 512      # tracemalloc peak above the level before the call
-TIME_BASE, TIME_PER_BYTE = 0.25, 50e-6        # seconds (generous: other builds share the machine)
+TIME_BASE, TIME_PER_BYTE = 2.0, 50e-6         # seconds (generous on purpose: wall time on a shared machine must never raise a false alarm; the line and copy counters are the sharp bounds)
 
 
 # ====================================================================== structured valid messages
@@ -1242,7 +1242,7 @@ def run(ck):
         "Model/Responses.v (property C05's model of every decode_*) is compared with the implementation on the malformed stream; the C12 theorems about readers and counted loops are generic (any reader consuming >= c bytes) and are not instantiated per decoder",
         "bursts that straddle the boundary between the stored CRC field and the checksummed bytes, and alterations of the offset/size fields of a message-set entry (not covered by the CRC in formats 0 and 1), are outside the theorems; the run records what the implementation does there",
         "gzip is an oracle (its recorded answers are given to the model); work is bounded relative to input bytes + decompressed bytes, times the nesting depth for the hand-over of messages (C12_hops_linear_per_depth); snappy is not installed and not exercised; nesting beyond CPython's recursion limit (RecursionError) is not exercised",
-        "work monitor: sys.settrace line events of files under <repo>/afkak (bound 3x the worst ratio of the unchanged tree), time.perf_counter, tracemalloc peak (memory is monitor-only: no theorem); byte-level work is seen only by the scaling monitor: bytes copied by slicing a counting bytes subclass (bound 4x the unchanged tree) and the wall-time ratio for a 4x larger set (bound 7, linear = 4); copies made without slicing the input (e.g. bytes(data) in a loop) are visible to the time ratio only",
+        "work monitor: sys.settrace line events of files under <repo>/afkak (bound 3x the worst ratio of the unchanged tree), time.perf_counter, tracemalloc peak (memory is monitor-only: no theorem); byte-level work is seen only by the scaling monitor: bytes copied by slicing a counting bytes subclass (bound 4x the unchanged tree) and the wall-time ratio for a 4x larger set (bound 10, linear = 4, quadratic = 16); copies made without slicing the input (e.g. bytes(data) in a loop) are visible to the time ratio only",
         "extraction: ExtrOcamlBasic only; OCaml 4.13.1 ocamlopt; a sample of the case lines is re-evaluated in Coq by vm_compute",
     ]
     ck.cov["trusted_base"] += ["correspondence harness harness/props/C12.py + harness/props/codec_lib.py + harness/props/C05.py (impl_decode / generators) + harness/vlib.py",
